@@ -34,6 +34,38 @@ CHECKS = {
             "connection, the scheduler reports hangs, channels must be empty at the end. Sampling, not proof.",
             "real RpcServer/_wire/_client/transports over simulated byte channels; pyarrow is a black box; OS pipes/sockets and Popen are stubs",
             "DESIGN.md §5 C04"),
+    "C07": ("exploration", SIM + "programs raising at every dispatch site run on a simulated connection and a simulated HTTP worker; wire tap + client-side oracle",
+            "Seeded search over dispatch site x exception class x message; RpcError type/message/error_kind checked on both transports, the "
+            "HTTP 200 + X-VGI-RPC-Error shape checked on every recorded response. The scheduler adds nothing here; the simulation "
+            "contributes the dispatch paths, transports and the wire tap.",
+            "real dispatch/error serialisation/client decoding; channels and WSGI invocation are stubs", "DESIGN.md §5 C07"),
+    "C10": ("exploration", SIM + "stream step scripts x input perturbations x every cancel/close point on a simulated connection and HTTP worker; model + server-side event oracle",
+            "Seeded search over producer/exchange scripts, input-schema perturbations and endings; client trace vs reference model plus "
+            "server-side invariants recorded by the generated implementation (declared input schema, no process after cancel, on_cancel <= 1).",
+            "real _serve_stream/_app_stream/StreamSession/HttpStreamSession; channels and WSGI invocation are stubs", "DESIGN.md §5 C10"),
+    "C22": ("exploration", SIM + "proxy / network / worker event simulation on a virtual clock with skew, delay, replay and a 61-mutator header grammar; differential vs an independent transcription of the spec's decision table",
+            "Seeded search over minted proofs, clock offsets around +-skew, network delay/duplication/replay/mutation and key rotation; the real "
+            "verifier's verdict and reason must equal the reference table's first failing step, nothing but ProofError may escape, require-mode "
+            "401s must be uniform.",
+            "real _proof/_replay/_bearer/_AuthMiddleware/error serializer; HTTP server replaced by in-process WSGI calls; single-threaded", "DESIGN.md §5 C22"),
+    "C24": ("exploration", SIM + "same S4 parties; every request sent to a gated and a gate-less app; AND-composition oracle over mode x inner x proof state",
+            "Seeded search over {require, allow} x inner authenticator kinds x proof states (valid/absent/malformed/expired/replayed...) with an "
+            "inner-call counter; oracles taken from the property statement.",
+            "real require_all/chain_authenticate/proxy_proof_gate/_AuthMiddleware; in-process WSGI", "DESIGN.md §5 C24"),
+    "C28": ("exploration", SIM + "two peers stepping allocate/write/resolve/free on one in-memory segment; reference allocator model + canary write-bound oracle; exhaustive for data regions <= 8 bytes",
+            "Seeded operation sequences (tiny/small/large/near-limit/virtual strata) by two peers on one fake SharedMemory; after every step the "
+            "table parsed from the segment header must be sorted, disjoint, inside the data region, <= 4094 entries and equal to the model; "
+            "batch writes may only change their own allocation.",
+            "real ShmAllocator/ShmSegment/_ShmSink/maybe_write_to_shm/resolve_shm_batch; SharedMemory is an in-memory fake; operation-sequence (not thread) interleaving", "DESIGN.md §5 C28"),
+    "C31": ("exploration", SIM + "virtual-time asyncio event loop driving the real fetch coroutines against a scripted faulty origin",
+            "Seeded origin behaviours (redirect chains, lying/missing lengths, ignored/partial ranges, slow/failing chunks that trigger "
+            "hedging, compressed bodies, secrets in URLs) on a virtual-time loop; oracles: validator-before-contact, redirect bound, byte "
+            "bounds, exact-or-fail result, no secret in errors/logs.",
+            "real fetch_url/_fetch_with_probe/_fetch_chunks_with_hedging/...; aiohttp session, loop plumbing and the clock are stubs", "DESIGN.md §5 C31"),
+    "C34": ("exploration", SIM + "generated programs with the access logger captured through the real formatter; history oracle over records vs requests vs client traces",
+            "Seeded programs on a simulated connection and HTTP worker; one record per dispatched call/turn/cancel, each validated against the "
+            "published JSON schema, status vs client-observed outcome, stream_id sharing, full error_message.",
+            "real _emit_access_log/_dispatch_telemetry/egress middleware/VgiAccessLogFormatter/jsonschema; channels and WSGI invocation are stubs", "DESIGN.md §5 C34"),
     "C23": ("exploration", SIM + "2-3 simulated threads on one real NonceCache, line-level pre-emption, virtual clock, linearizability check of the history",
             "Seeded schedules (PCT-style pre-emption inside _replay.py, clock advances) of 2-3 threads submitting overlapping nonces; the "
             "recorded invoke/return history is checked for linearizability against a sequential model and for the capacity bound.",
